@@ -18,6 +18,7 @@ import (
 	"github.com/zclconf/go-cty/cty"
 	"github.com/zclconf/go-cty/cty/function/stdlib"
 	ctyjson "github.com/zclconf/go-cty/cty/json"
+	"golang.org/x/text/unicode/norm"
 )
 
 var fmtVerbRe = regexp.MustCompile(`^%([0#\-+ ]*)([1-9][0-9]*)?(\.[0-9]*)?(\[[1-9][0-9]*\])?([a-zA-Z])`)
@@ -294,6 +295,9 @@ func runC14Format(ctx *Ctx) {
 	n := ctx.N(5000, 100000)
 	for i := 0; i < n; i++ {
 		format, args := genFormat(ctx)
+		if i == 0 { // corpus: minimal witness of the precision-zero finding
+			format, args = "%.0s", []cty.Value{sv("a")}
+		}
 		fv := sv(format)
 		all := append([]cty.Value{fv}, args...)
 		o := newOracle()
@@ -380,6 +384,79 @@ func runC14Format(ctx *Ctx) {
 			}
 			if !res.RawEquals(wantV) {
 				c14Fail(ctx, "formatlist", "formatlist-differs", "formatlist is not the element-wise format()", "FormatList", args, out)
+			}
+		}
+	}
+}
+
+// ---- jsonencode / jsondecode (search only here; the JSON codec itself is C15's subject) ----
+
+func genJSONVal(ctx *Ctx, depth int) cty.Value {
+	r := ctx.R
+	k := r.Intn(7)
+	if depth <= 0 && k >= 4 {
+		k = r.Intn(4)
+	}
+	switch k {
+	case 0:
+		return sv(genC14Str(ctx, 3))
+	case 1:
+		return cty.NumberIntVal(int64(r.Intn(2001) - 1000))
+	case 2:
+		return cty.BoolVal(r.Intn(2) == 0)
+	case 3:
+		return cty.MustParseNumberVal(decimalPool[r.Intn(len(decimalPool))])
+	case 4:
+		n := r.Intn(3)
+		els := make([]cty.Value, n)
+		for i := range els {
+			els[i] = genJSONVal(ctx, depth-1)
+		}
+		return cty.TupleVal(els)
+	case 5:
+		m := map[string]cty.Value{}
+		for i := r.Intn(3); i > 0; i-- {
+			m[[]string{"a", "b", "é", "k k"}[r.Intn(4)]] = genJSONVal(ctx, depth-1)
+		}
+		return cty.ObjectVal(m)
+	}
+	return cty.NullVal(cty.DynamicPseudoType)
+}
+
+func runC14Json(ctx *Ctx) {
+	n := ctx.N(1500, 30000)
+	for i := 0; i < n; i++ {
+		v := genJSONVal(ctx, 2)
+		if i == 0 { // corpus: minimal witness of the NFC-normalised JSON text finding
+			v = sv("\r\u0301")
+		}
+		args := []cty.Value{v}
+		_, enc, class := stdOut(stdlib.JSONEncodeFunc, args)
+		ctx.Tag("class:jsonencode:" + class)
+		ctx.Eval("json "+wireArgs(args), true)
+		if class != "ok" || enc.Type() != cty.String || !enc.IsKnown() {
+			c14Fail(ctx, "json", "jsonencode-failed", "jsonencode failed on a JSON-representable value", "JSONEncode", args, class)
+			continue
+		}
+		// root cause check: the JSON text is handed to cty.StringVal, which NFC-normalises it; if that changes
+		// the text (an escape letter or hex digit followed by a combining mark) the document is corrupted
+		if raw, err := ctyjson.Marshal(v, v.Type()); err == nil && norm.NFC.String(string(raw)) != string(raw) {
+			if enc.AsString() != strings.TrimSpace(string(raw)) {
+				c14Fail(ctx, "json", "jsonencode-nfc-changes-json-text", "jsonencode NFC-normalises the JSON text it produced: a combining mark after an escape sequence is composed with the escape's last letter (\\r + U+0301 -> \\ŕ), so the result is not the JSON encoding of the value", "JSONEncode", args, enc.GoString())
+				continue
+			}
+		}
+		_, dec, dclass := stdOut(stdlib.JSONDecodeFunc, []cty.Value{enc})
+		if dclass != "ok" {
+			c14Fail(ctx, "json", "jsondecode-rejects-own-output", "jsondecode rejected what jsonencode produced", "JSONEncode", args, dclass+" on "+enc.GoString())
+			continue
+		}
+		// decoding is the inverse of encoding: tuples / objects of primitives come back as they went in
+		if !dec.RawEquals(v) {
+			eq := cty.False
+			try(func() { eq = dec.Equals(v) })
+			if !(eq.IsKnown() && eq.True()) {
+				c14Fail(ctx, "json", "json-roundtrip-differs", "jsondecode(jsonencode(v)) is not v", "JSONEncode", args, dec.GoString())
 			}
 		}
 	}
